@@ -430,13 +430,41 @@ func checkC18(c *core.Ctx, l *core.Ledger) {
 			why := fanoutClosureProblem(mc)
 			l.Check(why == "", "FANOUT", key, c.Rel(cs.Pos()), "captured variables written by the callback are accessed only under the captured mutex (deferred unlock)", why)
 		}
-		// Range itself
+		// Range itself: go statements in the function or in a local closure it calls (a shared
+		// "spawn" helper); spawn points are the places in Range from which a goroutine is started
 		var gos []*ssa.Go
+		var spawnPoints []ssa.Instruction
 		core.Instrs(rangeFn, func(in ssa.Instruction) {
 			if g, ok := in.(*ssa.Go); ok {
 				gos = append(gos, g)
+				spawnPoints = append(spawnPoints, in)
 			}
 		})
+		for _, cl := range core.WithClosures(rangeFn) {
+			if cl == rangeFn {
+				continue
+			}
+			has := false
+			core.Instrs(cl, func(in ssa.Instruction) {
+				if g, ok := in.(*ssa.Go); ok {
+					gos = append(gos, g)
+					has = true
+				}
+			})
+			if !has {
+				continue
+			}
+			// calls of that closure in Range
+			core.Instrs(rangeFn, func(in ssa.Instruction) {
+				call, ok := in.(ssa.CallInstruction)
+				if !ok {
+					return
+				}
+				if mc, isMC := call.Common().Value.(*ssa.MakeClosure); isMC && mc.Fn == ssa.Value(cl) {
+					spawnPoints = append(spawnPoints, in)
+				}
+			})
+		}
 		for i, g := range gos {
 			key := fmt.Sprintf("concurrent.Range:go#%d", i+1)
 			var why []string
@@ -517,9 +545,9 @@ func checkC18(c *core.Ctx, l *core.Ledger) {
 		}
 		// Wait dominates every return that follows a go statement
 		waits := callsIn(rangeFn, "Wait")
-		ok := len(waits) == 1 && len(gos) >= 1
+		ok := len(waits) == 1 && len(gos) >= 1 && len(spawnPoints) >= 1
 		if ok {
-			for _, g := range gos {
+			for _, g := range spawnPoints {
 				if leak, _ := core.PathToExitAvoiding(g, func(in ssa.Instruction) bool { return in == waits[0] }, false); leak {
 					ok = false
 				}
